@@ -144,10 +144,14 @@ def run_env(env, rec, until=None, max_steps=200000):
     # as an observable event, not hang the check
     import signal
 
+    import hangbudget
+    lim = hangbudget.limit(HANG_LIMIT)
+
     def _hang(signum, frame):
-        raise TimeoutError("no progress for %s s of wall time" % HANG_LIMIT)
+        hangbudget.note()
+        raise TimeoutError("no progress for %s s of wall time" % lim)
     old = signal.signal(signal.SIGALRM, _hang)
-    signal.setitimer(signal.ITIMER_REAL, HANG_LIMIT)
+    signal.setitimer(signal.ITIMER_REAL, lim, min(lim, 1.0))      # periodic: the next spinning process is stopped as well
     try:
         return _run_env(env, rec, until, max_steps)
     finally:
